@@ -1,12 +1,13 @@
 """C08 - jump-level models execute by the documented statement semantics."""
 import copy
+import datetime
 import itertools
 import random
 
 from hypothesis import strategies as st
 
 from pbt.common import impl
-from pbt.common.core import Violation, ddmin_list, digest, run_hypothesis
+from pbt.common.core import Violation, ddmin_list, dec, digest, enc, run_hypothesis
 from pbt.refsem import jumpvm
 from pbt.refsem.values import values_equal
 from pbt.checks.c01 import gen_program, make_cc, make_probe
@@ -112,7 +113,7 @@ def user_view(g, is_impl):
 
 
 def check_model(model, globals0, limit=LIMIT, validate=True, hosts=None):
-    d = {'kind': 'model', 'model': model, 'globals': globals0, 'limit': limit}
+    d = {'kind': 'model', 'model': model, 'globals': enc(globals0), 'limit': limit}
     if validate:
         try:
             impl.bs.validate_script(copy.deepcopy(model))
@@ -152,8 +153,13 @@ def check_model(model, globals0, limit=LIMIT, validate=True, hosts=None):
 
 # ---- random hand-built models -----------------------------------------------------------------------------------------
 
+LABEL_POOLS = [['A', 'B', 'C', 'D']] * 3 + [['', 'B', '0', 'A b'], ['__bareScriptDone0', '__bareScriptLoop0', 'A', ''], ['label', '\u00e9', 'a.b', 'A'], ['A', 'a', ' A', 'A ']]
+# values a conditional jump may test directly (the documented truth table: null, false, 0, '', [] are false - everything else, the empty object included, is true)
+TRUTH_POOL = [None, True, False, 0.0, -0.0, 1.0, 0, 2, '', '0', 'x', [], [0.0], {}, {'a': None}, float('nan'), datetime.datetime(1970, 1, 1), datetime.date(2020, 1, 1)]
+
+
 def random_model(rnd, size):
-    labels = ['A', 'B', 'C', 'D']
+    labels = rnd.choice(LABEL_POOLS)
     counter = [0]
 
     def stmts(n, in_func, depth=0):
@@ -167,6 +173,8 @@ def random_model(rnd, size):
                 out.append(inc_stmt(rnd.choice(['n', 'k'])))
             elif k < 0.44:
                 out.append({'jump': {'label': rnd.choice(labels)}})
+            elif k < 0.5:
+                out.append({'jump': {'label': rnd.choice(labels), 'expr': rnd.choice([V('t0'), V('t1'), V('t0'), {'unary': {'op': '!', 'expr': V('t1')}}])}})      # a raw value as the condition
             elif k < 0.62:
                 out.append({'jump': {'label': rnd.choice(labels), 'expr': cond(rnd.choice(['n', 'k']), float(rnd.randint(1, 4)))}})
             elif k < 0.78:
@@ -267,7 +275,7 @@ def run_shard(ctx, spec):
         def prop(seed, size):
             rnd = random.Random(seed)
             model = random_model(rnd, size)
-            g = {'n': float(rnd.choice([0, 1, 5])), 'k': 0.0}
+            g = {'n': float(rnd.choice([0, 1, 5])), 'k': 0.0, 't0': copy.deepcopy(rnd.choice(TRUTH_POOL)), 't1': copy.deepcopy(rnd.choice(TRUTH_POOL))}
             try:
                 b = check_model(model, g, rnd.choice([40, 40, 200, 7]))
             except Violation as v:
@@ -316,7 +324,7 @@ def minimise(v):
     d = v.detail
     if d.get('kind') != 'model':
         return None
-    model, g, limit = d['model'], d['globals'], d['limit']
+    model, g, limit = d['model'], dec(d['globals'], {}), d['limit']
 
     def fails(stmts):
         try:
@@ -335,4 +343,4 @@ def minimise(v):
 
 
 def replay(detail):
-    check_model(detail['model'], detail['globals'], detail.get('limit', LIMIT), validate=False, hosts='cc' in str(detail['model']) or 'probe' in str(detail['model']))
+    check_model(detail['model'], dec(detail['globals'], {}), detail.get('limit', LIMIT), validate=False, hosts='cc' in str(detail['model']) or 'probe' in str(detail['model']))
